@@ -265,7 +265,12 @@ pub fn on_round_trip(id: &str, f: &Forest, dom: &WeakDom, map: &HashMap<u64, Ref
             let key = if neg && class == "type" {
                 "uniqueid-negative"
             } else if class == "migration" {
-                "unmigratable"
+                // the recorded class: an Enum.Font item above 45 somewhere in the written DOM; any other migration error is unlisted
+                if f.nodes.iter().any(|n| n.props.iter().any(|(k, v)| k == "Font" && crate::binoracle::recorded_unmigratable(v))) {
+                    "unmigratable"
+                } else {
+                    "migration-fails"
+                }
             } else {
                 "dec-fail"
             };
